@@ -749,7 +749,7 @@ quantiles_sorted_view<T, C, A> quantiles_sketch<T, C, A>::get_sorted_view() cons
 template<typename T, typename C, typename A>
 auto quantiles_sketch<T, C, A>::get_quantile(double rank, bool inclusive) const -> quantile_return_type {
   if (is_empty()) throw std::runtime_error("operation is undefined for an empty sketch");
-  if ((rank < 0.0) || (rank > 1.0)) {
+  if (std::isnan(rank) || (rank < 0.0) || (rank > 1.0)) {
     throw std::invalid_argument("Normalized rank cannot be less than 0 or greater than 1");
   }
   // possible side-effect: sorting base buffer
